@@ -24,9 +24,10 @@ type caseSpec struct {
 	Limit      int64  `json:"head_size_limit,omitempty"`
 	Pattern    []int  `json:"rotate_after_records,omitempty"`
 	PayloadLen int    `json:"payload_len,omitempty"`
-	Mode       string `json:"repair_mode,omitempty"` // fresh | in-place | over-existing
-	Ticks      []int  `json:"ticks_after_underlying_writes,omitempty"`
-	History    string `json:"history,omitempty"` // lives: M write msg, E write next EndHeight, R rotate, S stop+restart
+	Mode       string `json:"repair_mode,omitempty"`     // fresh | in-place | over-existing
+	Ticks      []int  `json:"tick_schedule,omitempty"`   // 2*(index of underlying write)+kind; kind 0 flush+size-check, 1 size-check only
+	SizeClass  int    `json:"big_frame_class,omitempty"` // bigbuf: index into bigFrameClasses
+	History    string `json:"history,omitempty"`         // lives: M write msg, E write next EndHeight, R rotate, S stop+restart
 }
 
 // family coarsens a corruption class for signatures: one defect should give a handful of signatures.
@@ -51,7 +52,7 @@ func sig(class, oracle, via string) string {
 	if strings.HasPrefix(oracle, "search-") {
 		if class == "clean" || class == "rotation" {
 			class = "undamaged-log"
-		} else if class == "log-with-restart-on-empty-head" || class == "rotation-between-writes-of-one-record" {
+		} else if class == "log-with-restart-on-empty-head" || class == "rotation-between-writes-of-one-record" || class == "rotation-with-buffered-writes" {
 			// kept: an undamaged multi-life log in which a restart found an empty head after a rotation
 		} else {
 			class = "damaged-log"
